@@ -76,7 +76,7 @@ def run_case(box, idx, fault, pos, big):
 def run(ctx):
     ctx.rule = ("3-unit runs (each unit with [Install] WantedBy) with one injected failure: output directory path occupied by a file, its parent occupied by a file, the service path occupied "
                 "by a directory, the service path a symlink to /dev/full (small unit: failure only at the final flush; unit > 8 KiB: failure during write), an existing read-only service file as an "
-                "unprivileged user; a file-size limit (RLIMIT_FSIZE, SIGXFSZ ignored) that makes the write fail at byte 1000 / 2500 of a 3 KiB unit and at byte 1000 / 9000 of a 14 KiB unit; at each of the 3 positions; non-trivial = every case; distinct = distinct (fault, position, size)")
+                "unprivileged user; a file-size limit (RLIMIT_FSIZE, SIGXFSZ ignored) that makes the write fail at byte 1000 / 2500 of a 3 KiB unit and at byte 1000 / 9000 of a 14 KiB unit; at each of the 3 positions; plus runs in which 256 / 512 service paths are occupied by directories (the exit status must not wrap); non-trivial = every case; distinct = distinct (fault, position, size)")
     cases = []
     for fault in ("dir_in_the_way", "dev_full", "readonly_file"):
         for pos in range(3):
@@ -97,7 +97,7 @@ def run(ctx):
             ctx.nontrivial.add((fault, pos, big))
             ctx.count("fault:" + fault)
             bad = None
-            if rc != 1:
+            if rc == 0 or rc in (101, 134, "timeout"):
                 bad = "exit status %s" % rc
             elif fault.startswith("outdir"):
                 if out not in err:
@@ -119,9 +119,33 @@ def run(ctx):
             if bad:
                 ctx.failures.append({"op": "e2e", "fault": fault, "position": pos, "big": big, "what": "%s at unit %d (%s unit): %s" % (fault, pos, {True: "large", False: "small", "medium": "medium"}[big], bad),
                                      "class": "FlushErrorLost" if (fault == "dev_full" and not big) else None})
+        # many write failures in one run: the exit status is a yes/no answer (256 failures must not wrap to "all fine")
+        for nbad in (256, 512):
+            root = box.path("many%d" % nbad)
+            files = {"u/ok.container": unit_text(False)}
+            for j in range(nbad):
+                files["u/w%03d.container" % j] = "[Container]\nImage=img\n"
+            e2e.make_tree(root, files)
+            out = os.path.join(root, "out")
+            for j in range(nbad):
+                os.makedirs(os.path.join(out, "w%03d.service" % j))          # the service path is occupied by a directory
+            rc, so, se = e2e.run_quadlet([os.path.join(root, "u")], out, timeout=120)
+            ctx.evaluations += 1
+            ctx.nontrivial.add(("many", nbad))
+            ctx.count("fault:many_dirs_in_the_way")
+            errt = se.decode("utf-8", "replace")
+            bad = None
+            if rc == 0 or rc in (101, 134, "timeout"):
+                bad = "exit status %s" % rc
+            elif sum(1 for j in range(nbad) if os.path.join(out, "w%03d.service" % j) in errt) != nbad:
+                bad = "not every failed file is named in an error"
+            elif not os.path.isfile(os.path.join(out, "ok.service")):
+                bad = "the remaining service was not written"
+            if bad:
+                ctx.failures.append({"op": "e2e", "fault": "dir_in_the_way x %d" % nbad, "what": "%d service paths occupied by directories: %s" % (nbad, bad), "class": None})
     ctx.samples = [{"fault": f, "position": p, "large_unit": b} for f, p, b in cases[:6]]
     unknown = [f for f in ctx.failures if f["class"] is None]
-    ctx.oblig("direct oracle: every injected write failure gives exit status 1, an error naming the file, no enablement of that service, and the remaining services written and enabled",
+    ctx.oblig("direct oracle: every injected write failure gives a non-zero exit status (no crash), an error naming the file, no enablement of that service, and the remaining services written and enabled",
               not ctx.failures, "%d failures (%d outside known classes)" % (len(ctx.failures), len(unknown)))
 
 
